@@ -311,15 +311,25 @@ theorem layout_agrees (d : FnDef) (j : Nat) (n : Bind.Name) (hj : d.captures[j]?
   simp only [List.cons_append, findSlot, show (Slot.alloc = Slot.assigned n) = False by simp, if_false, List.append_assoc]
   rw [step1 d.params _ (0 + 1) hnotparam, step2 d.captures _ _ j hj hfirst]
 
-/-- **single_ellipsis_counterexample** (known finding F-C02-3). The compiled prologue of
-`|(xs...)|` slices *up to index 0*: `xs` is bound to the empty tuple, not to all elements as the
-guide prescribes. The general unpack statement therefore excludes one-element ellipsis patterns. -/
-theorem single_ellipsis_counterexample :
+/-- **single_ellipsis_binds_all** (F-C02-3, fixed in /repo 7cd4923; before the fix the prologue
+sliced *up to index 0* and `xs` was empty). For every tuple or list argument, `|(xs...)|` binds `xs`
+to the whole container: the prologue is `CheckSizeMin 0; SliceFrom 0`. -/
+theorem single_ellipsis_binds_all (vs : List Val) :
     let d : FnDef := { params := [.tuple [.packed (some 1)]], optCount := 0, variadic := false, captures := [] }
-    prologue d = [.checkSizeMin 1 0, .sliceTo 2 1 0]
-    ∧ (enter d (callPlain elems (d.toVal [] []) [(.tuple [.int 1, .int 2, .int 3], false)])).toOption.map (·.2)
-        = some [Val.tuple []] := by
-  constructor <;> rfl
+    prologue d = [.checkSizeMin 1 0, .sliceFrom 2 1 0]
+    ∧ enter d (callPlain elems (d.toVal [] []) [(.tuple vs, false)]) = .ok (.null, [Val.tuple vs])
+    ∧ enter d (callPlain elems (d.toVal [] []) [(.list vs, false)]) = .ok (.null, [Val.list vs]) := by
+  refine ⟨rfl, ?_, ?_⟩ <;>
+  simp [enter, callPlain, compileCall, packedIdxs, callCallable, setReg, unpackPacked, callKoto,
+    FnDef.toVal, FnVal.expected, applyOptional, applyVariadic, applyCaptures, bind, Except.bind,
+    pure, Except.pure, prologue, compileParams, compileParam, sizeOp, hasPacked, compileTupleElems,
+    regOr, regOf, frameSlots, findSlot, topSlot, nestedNames, nestedOfParam, patsNames, patNames,
+    execUs, execU, getReg, Bind.sizeOf, slice, signedIndex, FnDef.names, topNames, readName]
+
+example : (enter { params := [.tuple [.packed (some 1), .id 2]], optCount := 0, variadic := false, captures := [] }
+    (callPlain elems { argCount := 1, optCount := 0, variadic := false, captures := [] }
+      [(.tuple [.int 1, .int 2, .int 3], false)])).toOption.map (·.2)
+    = some [Val.tuple [.int 1, .int 2], .int 3] := by rfl
 
 /-! ## Captures -/
 
